@@ -272,7 +272,7 @@ func rulePanicInventory(r *Run) {
 			if lc, ok := b.Y.(*ssa.Call); ok {
 				if bi, ok := lc.Call.Value.(*ssa.Builtin); ok && bi.Name() == "len" {
 					if u, ok := lc.Call.Args[0].(*ssa.UnOp); ok {
-						if g, ok := u.X.(*ssa.Global); ok && g.Name() == "names" && len(namesLiteral(p)) > 0 {
+						if g, ok := u.X.(*ssa.Global); ok && globalName(g) == "names" && len(namesLiteral(p)) > 0 {
 							o.OK("divisor is len(names) of a %d-element literal that is never reassigned", len(namesLiteral(p)))
 							// never reassigned
 							for _, f2 := range p.SrcFuncs() {
